@@ -151,7 +151,7 @@ func (c *histCase) coq() string {
 	for i, s := range c.Steps {
 		steps[i] = s.coq()
 	}
-	return fmt.Sprintf("(mk_hcase %s [101%%Z; 102%%Z] [201%%Z] %s)", coqProtocol(c.Cfg), cList(steps))
+	return fmt.Sprintf("(mk_hcase %s [102%%Z; 101%%Z] [202%%Z; 201%%Z] %s)", coqProtocol(c.Cfg), cList(steps))
 }
 
 func (c *histCase) jsonRecord() map[string]interface{} {
@@ -285,12 +285,12 @@ var commonSigned = []string{"", "", "", "sig_bitflip", "payload_reencoded", "key
 	"sig_truncated", "sig_extended", "sig_by_other_key", "key_subst_resigned", "key_subst_resigned_old_reveal", "reveal_substituted",
 	"reveal_unconfigured_alg", "reveal_truncated_digest", "reveal_respelled", "extra_header", "alg_not_allowed", "alg_missing", "curve_not_allowed", "nonce_wrong_size",
 	"malformed_json", "missing_did_suffix", "missing_signed_data", "absent_did_suffix", "absent_reveal_value", "absent_signed_data", "absent_type",
-	"alg_other_case", "header_duplicate_member_no_resign", "jws_two_parts", "jws_empty_sig", "payload_not_json",
+	"alg_other_case", "header_duplicate_member_no_resign", "header_null_member_no_resign", "jws_trailing_segment", "jws_two_parts", "jws_empty_sig", "payload_not_json",
 	"json_type_member_differs", "early", "late", "at_from", "at_until", "at_default_until", "after_default_until", "until_only", "inverted_window", "negative_until", "negative_from"}
 
 var deltaMuts = []string{"delta_substituted", "delta_no_patches", "delta_disabled_action", "delta_invalid_patch",
 	"delta_oversize", "delta_bad_update_commitment", "delta_missing", "delta_missing_hash_of_null", "compose_fails",
-	"signed_delta_hash_unconfigured_alg", "delta_hash_truncated", "delta_hash_respelled", "delta_invalid_patch_after_valid_same_action", "big_request", "rotate_nonce_only"}
+	"signed_delta_hash_unconfigured_alg", "delta_hash_truncated", "delta_hash_respelled", "delta_invalid_patch_after_valid_same_action", "big_request", "rotate_nonce_only", "delta_at_size_limit_html"}
 
 func mutationsFor(typ string) []string {
 	switch typ {
@@ -298,7 +298,7 @@ func mutationsFor(typ string) []string {
 		return []string{"", "", "malformed_json", "missing_suffix_data", "recovery_commitment_not_mh", "delta_hash_not_mh",
 			"delta_substituted", "delta_no_patches", "delta_disabled_action", "delta_invalid_patch", "delta_oversize",
 			"delta_bad_update_commitment", "delta_missing", "delta_missing_hash_of_null", "compose_fails",
-			"json_type_member_differs", "origin_object", "origin_string", "delta_hash_truncated", "delta_hash_respelled", "delta_invalid_patch_after_valid_same_action", "big_request", "rotate_nonce_only"}
+			"json_type_member_differs", "origin_object", "origin_string", "delta_hash_truncated", "delta_hash_respelled", "delta_invalid_patch_after_valid_same_action", "big_request", "rotate_nonce_only", "delta_at_size_limit_html"}
 	case "update":
 		return append(append([]string{}, commonSigned...), deltaMuts...)
 	case "recover":
@@ -349,8 +349,14 @@ func (d *didState) buildOp(typ, mut string, t uint64, cfg *protocol.Protocol) bu
 		}
 		nextUpd, nextRec = renonce(d.upd), renonce(d.rec)
 	}
+	if mut == "delta_at_size_limit_html" { // characters an HTML-safe encoder would escape; the limit is on the canonical bytes
+		patches = []interface{}{map[string]interface{}{"action": "add-services", "services": []interface{}{map[string]interface{}{
+			"id": "htmlsvc", "type": "T", "serviceEndpoint": "https://example.com/q?a=1&b=2&c=3&d=4&e=5"}}}}
+	}
 	delta := map[string]interface{}{"patches": patches, "updateCommitment": commitmentOf(nextUpd.jwk(), code)}
 	switch mut {
+	case "delta_at_size_limit_html":
+		cfg.MaxDeltaSize = uint(len(jcs(delta)))
 	case "delta_no_patches":
 		delta["patches"] = []interface{}{}
 		v.DeltaValid = false
@@ -669,6 +675,12 @@ func (d *didState) buildOp(typ, mut string, t uint64, cfg *protocol.Protocol) bu
 		case "header_duplicate_member_no_resign": // a member twice, the last occurrence being what was signed: not the signed header
 			parts[0] = b64([]byte(`{"alg":"none","alg":` + string(jcs(signer.alg)) + `}`))
 			v.ParseOK = false
+		case "header_null_member_no_resign": // a further member whose value is null: neither the signed header nor an allowed member
+			parts[0] = b64([]byte(`{"alg":` + string(jcs(signer.alg)) + `,"` + []string{"typ", "b64", "crit", "jwk"}[r.Intn(4)] + `":null}`))
+			v.ParseOK = false
+		case "jws_trailing_segment": // something behind the signature segment: not a compact JWS
+			parts = append(parts, []string{"", "AAAA", parts[2]}[r.Intn(3)])
+			v.ParseOK = false
 		case "kid_added_no_resign":
 			h2 := map[string]interface{}{"alg": signer.alg, "kid": "added"}
 			parts[0] = b64(jcs(h2))
@@ -802,8 +814,9 @@ func deepSnapshot(v interface{}) string {
 }
 
 func runHistory(c *histCase, cfgs []protocol.Protocol) {
-	pub := []*operation.AnchoredOperation{{TransactionNumber: 101}, {TransactionNumber: 102}}
-	unpub := []*operation.AnchoredOperation{{TransactionNumber: 201}}
+	// the lists of operations a state carries are the caller's, in the caller's order (here: newest first)
+	pub := []*operation.AnchoredOperation{{TransactionTime: 9, TransactionNumber: 102}, {TransactionTime: 3, TransactionNumber: 101}}
+	unpub := []*operation.AnchoredOperation{{TransactionTime: 12, TransactionNumber: 202}, {TransactionTime: 11, TransactionNumber: 201}}
 	rm := &protocol.ResolutionModel{PublishedOperations: pub, UnpublishedOperations: unpub}
 	composer := doccomposer.New()
 	// one applier per protocol configuration for the whole history: an applier that carries state
